@@ -23,7 +23,8 @@ class Case:
 
     # ---- names -------------------------------------------------------------------------------
     def cname(self, c):
-        return "K%dC%d" % (self.i, c)
+        like = self.cls[c - 1].get("like")
+        return "K%dC%d" % (self.i, like or c)
 
     def ns(self):
         return "k%dns" % self.i
@@ -92,6 +93,27 @@ class Case:
             return self.f1()
         return self.f2path() if self.lib["files"][1]["src"] == "cmd" else self.f2name()
 
+    # ---- visibility (for finding predicates over the input; the rule itself lives in CppLib.tla) ----
+    RANK = {"published": 0, "public": 1, "protected": 2, "private": 3}
+
+    def in_region(self, c):
+        k = self.cls[c - 1]
+        return self.in_region(k["outer"]) if k["outer"] else k["region"]
+
+    def vis_at(self, c, j):
+        k = self.cls[c - 1]
+        v = "private" if k["key"] == "class" else "public"
+        for m in k["members"][:j]:
+            if m["lab"] != "same":
+                v = "published" if m["lab"] == "public" and self.in_region(c) else m["lab"]
+        return v
+
+    def class_vis(self, c):
+        k = self.cls[c - 1]
+        if k["outer"]:
+            return self.vis_at(k["outer"], k["at"])
+        return "published" if k["region"] else "public"
+
     # ---- types -------------------------------------------------------------------------------
     def refname(self, rc, ri, frm=0):
         """C++ spelling of the type a declaration refers to"""
@@ -121,6 +143,27 @@ class Case:
             return "int %s;" % n
         if k == "datap":
             return "%s *%s;" % (self.refname(m["rc"], 0), n)
+        if k == "dataa":
+            return "%s %s[2];" % (self.cname(m["rc"]), n)
+        if k == "getter":
+            return "int %s() const;" % n
+        if k == "seqget":
+            return "int %sn() const; int %s(int i) const;" % (n, n)
+        if k == "mprop":
+            return "__make_property(%s, %s);" % (n, self.mname(c, m["gi"]))
+        if k == "mseq":
+            g = self.mname(c, m["gi"])
+            return "__make_seq(%s, %sn, %s);" % (n, g, g)
+        if k == "ctorof":
+            return "%s(const ::%s &p1);" % (C, self.cscoped(m["rc"]))
+        if k == "cctor":
+            return "%s(const %s &p1);" % (C, C)
+        if k == "senum":
+            return "enum class %s {\n  %sv\n};" % (self.ename(c, j), n)
+        if k == "enum1":
+            return "enum %s { %sv };" % (self.ename(c, j), n)
+        if k == "enumc":
+            return "enum %s { %sv, /* about %sw */ %sw };" % (self.ename(c, j), n, n, n)
         if k == "del":
             return "void %s() = delete;" % n
         if k == "tmpl":
@@ -132,7 +175,7 @@ class Case:
         if k == "tdef":
             return "typedef int %s;" % self.ename(c, j)
         if k == "enum":
-            return "enum %s { %sv };" % (self.ename(c, j), n)
+            return "enum %s {\n  %sv\n};" % (self.ename(c, j), n)
         if k == "usee":
             return "void %s(%s x);" % (n, self.ename(m["rc"], m["ri"]))
         if k == "usep":
@@ -177,7 +220,7 @@ class Case:
             ps.append(x)
         role = s["role"]
         pre = {"static": "static ", "virt": "virtual "}.get(role, "")
-        post = " const" if role == "const" else ""
+        post = " const" if role == "const" else " override" if role == "over" else ""
         if role == "ctor":
             return "%s(%s);" % (C, ", ".join(ps))
         if n.startswith("operator typecast "):
@@ -208,7 +251,8 @@ class Case:
 
     def class_text(self, c, ind=""):
         k = self.cls[c - 1]
-        bases = ", ".join("%s%s %s" % ("virtual " if b["virt"] else "", b["acc"], self.cscoped(b["c"])) for b in k["bases"])
+        bases = ", ".join(("%s%s %s" % ("virtual " if b["virt"] else "", "" if b["acc"] == "default" else b["acc"],
+                                        self.cscoped(b["c"]))).strip().replace("  ", " ") for b in k["bases"])
         L = ["%s%s %s%s {" % (ind, k["key"], self.cname(c), " : " + bases if bases else "")]
         for j, m in enumerate(k["members"], 1):
             if m["lab"] != "same":
@@ -330,7 +374,7 @@ def make_tree(root):
 
 
 INCLUDE_ARGS = ["-Iinc", "-Ssys"]
-MARK = re.compile(r"\b[kK](\d+)(?:c(\d+)m(\d+)v?|C(\d+)E(\d+)|t(\d+))\b")
+MARK = re.compile(r"\b[kK](\d+)(?:c(\d+)m(\d+)[vwn]?|C(\d+)E(\d+)|t(\d+))\b")
 
 
 # ---- projection of the database ------------------------------------------------------------------
@@ -347,6 +391,7 @@ class DB:
             self.funcs.setdefault(f["scoped_name"], []).append(f)
         self.elems = {e["scoped_name"]: e for e in d["elements"].values()}
         self.manifests = {m["name"]: m for m in d["manifests"].values()}
+        self.seqs = {m["scoped_name"]: m for m in d["make_seqs"].values()}
 
     def wrappers(self, f):
         return [self.d["wrappers"][str(w)] for w in f["c_wrappers"] + f["python_wrappers"] if str(w) in self.d["wrappers"]]
@@ -397,7 +442,16 @@ def observe_case(cs, db):
             elif kind == "dtor":
                 if t and t["has_destructor"] and t["is_fully_defined"] and db.funcs.get(sc):
                     callable_.add(("m", c, j))
-            elif kind in ("data", "datap"):
+            elif kind == "mprop":
+                if sc in db.elems:
+                    callable_.add(("m", c, j))
+            elif kind == "mseq":
+                if sc in db.seqs:
+                    callable_.add(("m", c, j))
+            elif kind == "seqget":
+                if db.nwrap(sc) or db.nwrap(sc + "n"):
+                    callable_.add(("m", c, j))
+            elif kind in ("data", "datap", "dataa"):
                 e = db.elems.get(sc)
                 if e and (e["has_getter"] or e["has_setter"]):
                     callable_.add(("m", c, j))
